@@ -11,6 +11,10 @@ checks = {
    text="explicit-state BFS (to closure) of the connection state machine on the real server over 12 configurations x 4 session variants x 82 events, every transition executed on the real code against an RFC 9051 reference model (permitted-state table, TLS/InsecureAuth policy, response class, capability lists, Close exactly once); plus all un-deduplicated histories of depth 2 everywhere and depth 3 (4 thorough) in default configurations",
    note="real crypto/tls over the in-memory network; BAD/NO both accepted where the RFC leaves the class open; dedup key = reference state, soundness backed by a behaviour-function table and the un-deduplicated runs",
    technique="explicit-state model checking over the real transition function (fresh instance + history replay) vs reference state machine"),
+ "C07": dict(level=MC, design="DESIGN.md §4 C07",
+   text="explicit-state BFS over histories of tracker operations (Append(1..3), Expunge(i), MsgFlags(i,source), MailboxFlags, NewSession, Close, Poll with/without expunge permission) on the REAL MailboxTracker/SessionTracker, polls issued through real connections (NOOP / FETCH) and read back from the wire; closed search (bounded pending queue, frontier emptied) + depth-bounded search + un-merged histories + a command matrix for conn.poll; oracle: DecodeSeqNum/EncodeSeqNum for every number after every step, delivered updates applied in order equal the model view, no EXPUNGE when disallowed, order preserved, source suppression",
+   note="mailbox <= 4, sessions <= 2 (3 thorough); Decode of numbers beyond the client's view unconstrained (undocumented)",
+   technique="explicit-state model checking over the real transition function (fresh instance + history replay) vs reference model"),
  "C10": dict(level=MC, design="DESIGN.md §4 C10",
    text="the real client runs under a controlled scheduler (all goroutines, locks, channels and the connection instrumented); for each of 40 transcripts and every byte offset of the server stream the connection is cut with EOF / read error / stall+read-timeout / stall+Close, and a write error is injected at every client write call; within each fault scenario every schedule up to the deviation bound is executed; the scheduler itself decides termination (all threads finished) - no clock",
    note="scripted peer; caller honours the streaming contract; STARTTLS transcripts excluded (crypto/tls is not instrumented); bound 0 quick / 1 thorough with a per-scenario execution cap that is reported",
